@@ -8,6 +8,7 @@ equal due times —, clock ticks, reset) lead from `s` to `s'` emitting the trac
 every successful `addEvent` gets a registration id (`registered`), kept by `rescheduleEvent`.
 -/
 import LimnoriaModel.C18.ArgsInv
+import LimnoriaModel.C18.PluginLemmas
 namespace C18
 open Py List
 
@@ -254,5 +255,87 @@ example : ∃ s' evs, runPicks exProg
   split at h
   · exact ⟨_, _, by assumption⟩
   · cases h
+
+/-! ## the Scheduler plugin on top of the schedule
+
+`Plug.prun s ops` runs commands of the plugin (`scheduler add/remind/remove/repeat/list`), plugin
+life-cycle operations (load, unload, reload, a restart of the bot, `_flush`), other plugins'
+scheduling, clock ticks and `schedule.run()` on the model of plugins/Scheduler/plugin.py
+(`Plugin.lean`); keys of the plugin's table are `Key.id n` (the string `str(n)` of a one-shot
+event's integer id, scheduled under the *integer* name `Name.num n`) or `Key.name s` (a repeating
+event, scheduled under the *string* `Name.str s`). -/
+
+open Plug in
+/-- **Invariant of every reachable state of bot + plugin** (`Plug.PInv`, `Plug.PickleInv`): the
+scheduled names are pairwise distinct; counter names and table ids are below the counter; the
+table's keys are distinct and its ids ascending; every scheduled closure of the plugin belongs to
+the *live* instance, sits under the name of its key (`int` for one-shot events) and has its entry —
+with its due time and command — in that instance's table; every table entry has its closure
+scheduled; an unloaded plugin has nothing scheduled and its saved table is well formed. -/
+theorem plugin_invariant (now : Nat) (ops : List Plug.POp) (r : Plug.PState × List Plug.PEv)
+    (h : Plug.prun (Plug.pinit now) ops = some r) : Plug.Inv r.1 :=
+  (prun_inv ops _ r (pinit_inv now) h).1
+
+open Plug in
+/-- **No command runs on behalf of a dead plugin instance, none finds its table entry gone**
+(the two ways the pinned tree ran events twice or not at all around reloads). -/
+theorem plugin_no_stale_runs (now : Nat) (ops : List Plug.POp) (r : Plug.PState × List Plug.PEv)
+    (h : Plug.prun (Plug.pinit now) ops = some r) :
+    ∀ ev ∈ r.2, (∀ c t, ev ≠ .ranStale c t) ∧ (∀ c, ev ≠ .skipped c) := by
+  intro ev hev
+  have := (prun_inv ops _ r (pinit_inv now) h).2 ev hev
+  constructor
+  · intro c t e; subst e; cases this
+  · intro c e; subst e; cases this
+
+open Plug in
+/-- **`reload Scheduler` with events pending** leaves the table as it was (same keys, same
+records, same order), the counter untouched, the other plugins' entries in place, and schedules
+exactly one new entry per saved event, owned by the new instance: a one-shot event `str(n)` under
+the integer name `n` with its due time, a repeating event under its string name. -/
+theorem reload_keeps_events (s : Plug.PState) (h : Plug.Inv s) (hl : s.loaded = true) :
+    (Plug.reload s).1 = Plug.reloaded s ∧ Plug.Inv (Plug.reload s).1 :=
+  ⟨reload_exact s h hl, reload_inv s h⟩
+
+open Plug in
+/-- … so every pending event is scheduled **exactly once** after the reload: the entries of the
+schedule carrying the name of a table key are exactly one, the one built from that key's record. -/
+theorem reload_each_exactly_once (s : Plug.PState) (h : Plug.Inv s) (hl : s.loaded = true)
+    (k : Plug.Key) (r : Plug.Rec) (hk : (k, r) ∈ s.table) :
+    (Plug.reload s).1.sched.filter (fun e => decide (e.name = k.toName))
+      = [Plug.entryOf (s.inst + 1) s.now (k, r)] := by
+  have hinv := reload_inv s h
+  rw [reload_exact s h hl] at hinv ⊢
+  have hmem : entryOf (s.inst + 1) s.now (k, r) ∈ (reloaded s).sched := by
+    unfold reloaded
+    exact List.mem_append_right _ (List.mem_map.mpr ⟨(k, r), hk, rfl⟩)
+  have := pentry_filter_unique _ hinv.1.names _ hmem
+  rw [entryOf_name] at this
+  exact this
+
+open Plug in
+/-- the same for unload followed by load, and for any load of a saved table: the invariant holds
+again, so each restored event is scheduled once, by the live instance (`plugin_invariant` covers
+every interleaving; this is the single step) -/
+theorem load_restores_invariant (s : Plug.PState) (h : Plug.Inv s) :
+    Plug.Inv (Plug.load s).1 ∧ Plug.Inv (Plug.unload s).1 ∧ Plug.Inv (Plug.restart s).1 :=
+  ⟨load_op_inv s h, unload_inv s h, restart_inv s h⟩
+
+/-! ### non-vacuity (plugin layer) -/
+
+def exPlugOps : List Plug.POp :=
+  [.add 10 1, .add 30 2, .repeat_ ['r', 'a'] 7 3 4, .foreign 9 1005, .reload, .remove (.id 0), .tick 12,
+   .run [.num 2, .str ['r', 'a']], .unload, .tick 30, .run [], .load, .tick 1, .run [.num 1],
+   .restart, .add 5 4, .tick 9, .run [.num 0]]
+
+-- the history is an execution; event 1 (cmd 2) survives reload, unload/load (it is overdue when the
+-- plugin comes back) and runs once; the removed event 0 (cmd 1) never runs; the repeating one runs
+-- and is re-scheduled by every (re)load
+example : (Plug.prun (Plug.pinit 1000) exPlugOps).map (fun r => r.2.filterMap fun
+      | .ran _ c _ => some c
+      | _ => none) = some [3, 2, 4] := by decide
+-- `reload_keeps_events` / `reload_each_exactly_once`: a loaded state with three pending events
+example : ((Plug.prun (Plug.pinit 1000) (exPlugOps.take 4)).map fun r => (r.1.loaded, Plug.tkeys r.1.table)) =
+    some (true, [.id 0, .id 1, .name ['r', 'a']]) := by decide
 
 end C18
